@@ -16,7 +16,7 @@ pub fn spec() -> PropSpec {
     PropSpec {
         id: "C08",
         level: "exploration",
-        rule: "generated true positions stratified over every NL zone (uniform inside), 1e-4..1e-2 deg around each of the 58 zone boundaries, the equator, |lat| up to 86.9, longitudes uniform plus the +-180 / 0 neighbourhoods, both hemispheres; encoded by an independent CPR encoder (DO-260B A.1.7) into an even and an odd airborne-position squitter (TC 9..18), second frame displaced 0..3 km, either order, delays 0..8, 9, 10, 11, 30 s (simulated by shifting the stored time stamps), 0..3 unrelated frames of the same aircraft in between, with/without an earlier valid position, optional zero CPR field, -U on/off, observer given as 'lat,lon' with optional blanks. Oracle: valid pair (both fields non-zero, gap < 10 whole seconds by the interval rule, same NL zone, > 1e-6 deg from a boundary) => shown point within 20 m of the newer frame's position, lat/lon in range, distance = independent great-circle distance +- 1 m; otherwise lat, lon, distance and position stamp are unchanged by the frame. Non-trivial = valid pairs; distinct by hash of the case",
+        rule: "generated true positions stratified over every NL zone (uniform inside), 1e-4..1e-2 deg around each of the 58 zone boundaries, the equator, |lat| up to 86.9, longitudes uniform plus the +-180 / 0 neighbourhoods, both hemispheres; encoded by an independent CPR encoder (DO-260B A.1.7) into an even and an odd airborne-position squitter (TC 9..18), second frame displaced 0..3 km, either order, delays 0..8, 9, 10, 11, 30 s (simulated by shifting the stored time stamps), 0..3 unrelated frames of the same aircraft in between, with/without an earlier valid position, optional zero CPR field, -U on/off, observer given as 'lat,lon' with optional blanks. Oracle: valid pair (both fields non-zero, gap < 10 whole seconds by the interval rule, same NL zone, > 1e-6 deg from a boundary) => shown point within 20 m of the newer frame's position, lat/lon in range, distance = independent great-circle distance +- 1 m; otherwise lat, lon, distance and position stamp are unchanged by the frame. A share of the valid pairs is also run through the built CLI with -O \"lat, lon\": LATITUDE / LONGITUDE / DIST cells of the printed row must agree. Non-trivial = valid pairs; distinct by hash of the case",
         assumptions: &["reference CPR encoder and closed-form NL(lat)", "elapsed time simulated by shifting the public time-stamp fields; a case whose measured wall time makes the whole-second gap ambiguous is discarded and counted", "R = 6371 km"],
         workers: 16,
         also_nochk: false,
@@ -46,6 +46,12 @@ pub struct PosCase {
     pub ac12: u32,
     pub zero_field: u8, // 0 none, 1 lat of first, 2 lon of first, 3 lat of second, 4 lon of second
     pub addr: u32,
+    /// 0 plain; 1: after the first frame a second frame of the SAME parity with a zero CPR field arrives (the slot then
+    /// holds 'not received'); 2: the first frame is repeated `repeat_after` s later and the delay counts from the repeat
+    #[serde(default)]
+    pub variant: u8,
+    #[serde(default)]
+    pub repeat_after: i64,
 }
 
 fn observer_string(o: &(f64, f64, u8)) -> String {
@@ -118,6 +124,28 @@ pub fn check(c: &PosCase) -> Result<Verdict, String> {
         let r = after1.get(&c.addr).unwrap();
         return Err(format!("a single position frame {} (no valid partner: {}) changed the shown position to {:.5},{:.5}", f1.hex(), if c.prior.is_some() { "other slot is 30 s old" } else { "other slot never received" }, r.lat_f(), r.lon_f()));
     }
+    let mut zeroed_slot = false;
+    if c.variant == 1 && c.zero_field == 0 {
+        // same parity as the first frame, longitude field exactly 0: the slot of that parity now says 'not received'
+        let (fz, _, _, _) = pos_frame(c, c.lat, c.lon, c.first_odd, false, true);
+        let b = run::snapshot(&t);
+        run::run_lines(&c.opts, &t, &[fz.hex()]).map_err(|e| format!("reader failed on {}: {:?}", fz.hex(), e))?;
+        let a = run::snapshot(&t);
+        if pos_state(b.get(&c.addr)) != pos_state(a.get(&c.addr)) {
+            return Err(format!("a position frame with a zero CPR field {} changed the shown position", fz.hex()));
+        }
+        zeroed_slot = true;
+    }
+    if c.variant == 2 && c.zero_field == 0 {
+        // the very same first frame again, later: it is the latest frame of its parity and restarts the pair clock
+        run::shift_time(&t, c.repeat_after);
+        let b = run::snapshot(&t);
+        run::run_lines(&c.opts, &t, &[f1.hex()]).map_err(|e| format!("reader failed on {}: {:?}", f1.hex(), e))?;
+        let a = run::snapshot(&t);
+        if c.prior.is_none() && pos_state(b.get(&c.addr)) != pos_state(a.get(&c.addr)) {
+            return Err(format!("repeating the single position frame {} changed the shown position", f1.hex()));
+        }
+    }
     let mut lines: Vec<String> = c.between.iter().map(|f| f.hex()).collect();
     if !lines.is_empty() {
         run::run_lines(&c.opts, &t, &lines).map_err(|e| format!("reader failed: {:?}", e))?;
@@ -136,7 +164,9 @@ pub fn check(c: &PosCase) -> Result<Verdict, String> {
     let gap_lo = c.delay;
     let gap_hi = (c.delay as f64 + elapsed).floor() as i64;
     let zones_equal = nl(rlat1) == nl(rlat2);
-    let verdict = if !nonzero {
+    let verdict = if zeroed_slot {
+        Verdict::Invalid("slot_overwritten_by_zero_field_frame")
+    } else if !nonzero {
         Verdict::Invalid("zero_cpr_field")
     } else if gap_lo >= 10 {
         Verdict::Invalid("gap_ge_10s")
@@ -189,7 +219,7 @@ fn lat_strategy() -> BoxedStrategy<f64> {
         let hi = nl_boundary(n);
         lo + (hi - lo) * (0.001 + 0.998 * u)
     });
-    let edge = (2i32..=59, 1e-4f64..1e-2, any::<bool>()).prop_map(|(n, d, above)| nl_boundary(n) + if above { d } else { -d });
+    let edge = (2i32..=59, prop_oneof![2 => 1e-4f64..1e-2, 1 => 2e-6f64..1e-4], any::<bool>()).prop_map(|(n, d, above)| nl_boundary(n) + if above { d } else { -d });
     prop_oneof![
         6 => zone,
         3 => edge,
@@ -223,9 +253,9 @@ pub fn case_strategy() -> BoxedStrategy<PosCase> {
     let prior = prop_oneof![2 => Just(None), 1 => (-80.0f64..80.0, -170.0f64..170.0).prop_map(Some)];
     (
         (any::<bool>(), obs, prior, lat_strategy(), lon_strategy(), -3000.0f64..3000.0, -3000.0f64..3000.0),
-        (any::<bool>(), delay, gen::addr().prop_flat_map(|a| (Just(a), between_strategy(a))), 9u32..=18, gen::ac12_any(), prop_oneof![12 => Just(0u8), 1 => 1u8..=4]),
+        (any::<bool>(), delay, gen::addr().prop_flat_map(|a| (Just(a), between_strategy(a))), 9u32..=18, gen::ac12_any(), prop_oneof![12 => Just(0u8), 1 => 1u8..=4], prop_oneof![8 => Just(0u8), 1 => Just(1u8), 1 => Just(2u8)], 1i64..=12),
     )
-        .prop_map(|((u, observer, prior, lat, lon, dn, de), (first_odd, delay, (addr, between), tc, ac12, zero_field))| PosCase {
+        .prop_map(|((u, observer, prior, lat, lon, dn, de), (first_odd, delay, (addr, between), tc, ac12, zero_field, variant, repeat_after))| PosCase {
             opts: Opts::quiet().with_u(u),
             observer,
             prior,
@@ -240,6 +270,8 @@ pub fn case_strategy() -> BoxedStrategy<PosCase> {
             ac12,
             zero_field,
             addr,
+            variant,
+            repeat_after,
         })
         .boxed()
 }
@@ -273,12 +305,79 @@ fn run(c: &mut Ctx) {
     });
     if let Some((pc, m)) = r {
         c.fail(m, "c08:position", json!({"kind":"pos","c":pc}));
+        return;
     }
+    // the same through the command line with -O
+    let cases = c.tier.pick(160, 3_000);
+    let r = c.proptest(cases, case_strategy(), |c, pc, counting| {
+        let used = check_cli_observer(pc)?;
+        if counting && used {
+            c.eval(1);
+            c.class("cli_observer_option");
+            c.nontrivial(&format!("cli{:?}", pc));
+        }
+        Ok(())
+    });
+    if let Some((pc, m)) = r {
+        c.fail(m, "c08:cli_observer", json!({"kind":"cli","c":pc}));
+    }
+}
+
+/// the observer given on the command line (-O "lat, lon") must be the one the distance column refers to
+fn check_cli_observer(pc: &PosCase) -> Result<bool, String> {
+    let Some(o) = &pc.observer else { return Ok(false) };
+    let (la2, lo2) = displaced(pc.lat, pc.lon, pc.d_north_m, pc.d_east_m);
+    // an observer within a few hundred km, so that the distance fits the 5-character DIST column
+    let r4 = |x: f64| (x * 1e4).round() / 1e4;
+    let o = &(r4((la2 + o.0 % 3.0).clamp(-89.0, 89.0)), r4(((lo2 + o.1 % 3.0 + 540.0) % 360.0) - 180.0), o.2);
+    if pc.lat.abs() > 86.5 || la2.abs() > 86.5 {
+        return Ok(false);
+    }
+    let (f1, yz1, xz1, r1) = pos_frame(pc, pc.lat, pc.lon, pc.first_odd, false, false);
+    let (f2, yz2, xz2, r2) = pos_frame(pc, la2, lo2, !pc.first_odd, false, false);
+    if nl(r1) != nl(r2) || near_boundary(r1) || near_boundary(r2) || yz1 == 0 || xz1 == 0 || yz2 == 0 || xz2 == 0 {
+        return Ok(false); // not a valid pair (a CPR field of exactly 0 counts as not received)
+    }
+    let path = run::tmp_dir().join(format!("c08-{}.txt", std::process::id()));
+    std::fs::write(&path, format!("{}\n{}\n", f1.hex(), f2.hex())).map_err(|e| e.to_string())?;
+    let o2 = Opts { i: vec!["x".into()], upd: -1, u: pc.opts.u, ..Opts::default() };
+    let extra = vec![format!("--observer-coord={}", observer_string(o))]; // "=" form: the value may start with a minus sign
+    let out = crate::cli::run_file(true, &o2, &path.to_string_lossy(), &extra, true, std::time::Duration::from_secs(60)).map_err(|e| e.to_string())?;
+    if out.timed_out {
+        return Ok(false);
+    }
+    if out.status != Some(0) {
+        return Err(format!("CLI with -O {:?} ended with {:?}/{:?}: {}", observer_string(o), out.status, out.signal, out.stderr));
+    }
+    let (_, rs) = crate::cli::parse_refreshes(&String::from_utf8_lossy(&out.stdout));
+    let Some(last) = rs.last() else { return Err("CLI printed no refresh".into()) };
+    let Some(row) = last.rows.first() else { return Err("CLI printed no row".into()) };
+    let want = gc_km_vec(la2, lo2, o.0, o.1);
+    if want >= 9999.0 || row.chars().count() != last.header.chars().count() {
+        return Ok(false); // distance does not fit its column: the row is shifted
+    }
+    let cells = crate::render::cells("", row).ok_or("row too short")?;
+    let lat: f64 = cells["LATITUDE"].trim().parse().map_err(|_| format!("CLI row {:?}: no latitude although a valid pair was fed", row))?;
+    let lon: f64 = cells["LONGITUDE"].trim().parse().map_err(|_| format!("CLI row {:?}: no longitude", row))?;
+    if haversine_km(lat, lon, la2, lo2) * 1000.0 > 25.0 {
+        return Err(format!("CLI shows {:.5},{:.5} for a pair at {:.5},{:.5}", lat, lon, la2, lo2));
+    }
+    let dist: f64 = cells["DIST"].trim().parse().map_err(|_| format!("CLI row {:?}: DIST column blank although -O {:?} was given", row, observer_string(o)))?;
+    if (dist - want).abs() > 0.06 + 0.03 {
+        return Err(format!("CLI with -O {:?}: DIST column shows {:.1} km, the great-circle distance to the shown point is {:.3} km", observer_string(o), dist, want));
+    }
+    Ok(true)
 }
 
 fn replay(c: &mut Ctx, case: &Value) {
     c.eval(1);
     let Ok(pc) = serde_json::from_value::<PosCase>(case["c"].clone()) else { return c.inconclusive("bad replay") };
+    if case["kind"].as_str() == Some("cli") {
+        if let Err(m) = check_cli_observer(&pc) {
+            c.fail(m, "c08:cli_observer", case.clone());
+        }
+        return;
+    }
     if let Err(m) = check(&pc) {
         c.fail(m, "c08:position", case.clone());
     }
